@@ -1,7 +1,7 @@
 //! C04 — ignore files mean what git says they mean. E1 with git itself as the
 //! oracle: for every ignore-file content over a token grammar (single lines,
 //! pairs of lines, root + nested file) the set of files the REAL walker
-//! yields on a fixed 144-file tree is compared with
+//! yields on a fixed 152-file tree is compared with
 //! `git ls-files -o --exclude-standard`.
 
 use std::{
@@ -36,6 +36,15 @@ fn tree_files() -> Vec<String> {
         for e in d2.iter() {
             for n in names_all.iter() {
                 out.push(format!("{}/{}/{}", d, e, n));
+            }
+        }
+    }
+    // a deeper branch (files at depth 4) for patterns with several literal
+    // components
+    for x in d2.iter() {
+        for y in d2.iter() {
+            for z in d2.iter() {
+                out.push(format!("d/{}/{}/{}", x, y, z));
             }
         }
     }
@@ -222,6 +231,30 @@ pub fn run(args: &Args) -> ! {
         cases.push(Case { root: format!("# c\n\n{}\n", l), nested: None, icase: false });
         cases.push(Case { root: format!("A{}\n", l), nested: None, icase: true });
     }
+    // several `**/lit/lit` lines in one file (served together by one
+    // multi-literal suffix matcher): ordered pairs with every negation
+    // pattern, and triples ignore / re-include / ignore
+    {
+        let mut pool: Vec<String> = vec![];
+        for x in ["a", "b"] {
+            for y in ["a", "b"] {
+                pool.push(format!("**/{}/{}", x, y));
+                for z in ["a", "b"] {
+                    pool.push(format!("**/{}/{}/{}", x, y, z));
+                }
+            }
+        }
+        for a in pool.iter() {
+            for b in pool.iter() {
+                for (na, nb) in [("", ""), ("!", ""), ("", "!")] {
+                    cases.push(Case { root: format!("{}{}\n{}{}\n", na, a, nb, b), nested: None, icase: false });
+                }
+                for c in pool.iter().step_by(tier.pick(3, 1)) {
+                    cases.push(Case { root: format!("{}\n!{}\n{}\n", a, b, c), nested: None, icase: false });
+                }
+            }
+        }
+    }
     let ncases = cases.len();
     let shards = ncpu();
     let next = std::sync::atomic::AtomicUsize::new(0);
@@ -258,7 +291,7 @@ pub fn run(args: &Args) -> ! {
                     };
                     let got = repo.walker_files(c.icase);
                     acc.cases += 1;
-                    if want.len() < 144 {
+                    if want.len() < 152 {
                         acc.nontrivial += 1;
                     }
                     if got != want {
@@ -341,11 +374,11 @@ pub fn run(args: &Args) -> ! {
     ev.set("exhaustive", true);
     ev.set("ignore_file_contents", ncases);
     ev.set("skipped_degenerate_or_rejected_by_git", total.skipped_degenerate);
-    ev.set("tree_files", 144);
+    ev.set("tree_files", 152);
     ev.set(
         "rule",
         format!(
-            "tree: 144 files over names {{ab,a.b,.a,a-b,a*,[a],a?,c,a,b,A,a.}} in directories {{.,a,b,a.,A}} x {{.,a,b}}. Ignore-file contents: every single line that is a token string of length <= {} over {:?}; ordered pairs of lines (length <= 2 each{}); a root line with a nested a/.gitignore line; case-insensitive variants; trailing blanks, escaped blanks, comments. Oracle: git {} (`git ls-files -o --exclude-standard`) in a scratch repository per shard. Observation: the set of files the real ignore::Walk yields with only .gitignore active. Lines containing '//' or a backslash before '/' are skipped (no specification). distinct_nontrivial = contents for which git ignores at least one file.",
+            "tree: 152 files over names {{ab,a.b,.a,a-b,a*,[a],a?,c,a,b,A,a.}} in directories {{.,a,b,a.,A}} x {{.,a,b}} plus d/{{a,b}}/{{a,b}}/{{a,b}}. Ignore-file contents: every single line that is a token string of length <= {} over {:?}; ordered pairs of lines (length <= 2 each{}); a root line with a nested a/.gitignore line; case-insensitive variants; trailing blanks, escaped blanks, comments; every ordered pair (with each negation pattern) and ignore / re-include / ignore triples over the 12 lines **/x/y and **/x/y/z with x,y,z in {{a,b}} (several multi-component literal suffixes in one file). Oracle: git {} (`git ls-files -o --exclude-standard`) in a scratch repository per shard. Observation: the set of files the real ignore::Walk yields with only .gitignore active. Lines containing '//' or a backslash before '/' are skipped (no specification). distinct_nontrivial = contents for which git ignores at least one file.",
             tier.pick(4, 5), TOKENS, if tier == Tier::Quick { ", every 2nd line" } else { "" },
             String::from_utf8_lossy(&Command::new("git").arg("--version").output().map(|o| o.stdout).unwrap_or_default()).trim()
         ),
